@@ -13,6 +13,7 @@ EXPLANATION = (
     "proof's keys, total = total_votes(epoch)); the confirming side must have a > 0, b < 0 and −b/a = 2/3, with rounding allowed only on the "
     "lesser side of a strict comparison. R3 sources: epoch = self.height.epoch(), votes are read from self's stake set for the proof's keys; "
     "the returned state is self with the given proof."
+    " R1 also requires that no proof entry can reach the next iteration without passing the verification (`verify/every-entry`). R2 accepts a fold with an addition step for `.sum()`, and - when the vote sums saturate - requires that a saturated total (u128::MAX) confirms nothing (`threshold/saturated-guard`, `threshold/saturated-total`)."
 )
 NOT_DECIDED = ["Ed25519 signature verification itself (tmelcrypt, trusted base)",
                "that votes()/total_votes() sums do not overflow (supply bound, C09)"]
